@@ -14,7 +14,7 @@ from .oracle import penalties as OP
 from .oracle import datafits as OD
 
 MAX_EVENTS = 1500
-INPLACE_SOLVERS = ("AndersonCD", "GroupBCD", "MultiTaskBCD", "ProxNewton", "GroupProxNewton")
+INPLACE_SOLVERS = ("AndersonCD", "GroupBCD", "MultiTaskBCD", "ProxNewton", "GroupProxNewton", "PDCD_WS")
 
 
 def _explanatory(exc):
